@@ -141,10 +141,31 @@ def cheap_pattern_strategy(draw, max_depth=2):
     return p
 
 
+def limit_unbounded(node, budget):
+    """keep the first budget[0] open-ended quantifiers (reading order), turn the others into bounded ones:
+    many adjacent open-ended quantifiers make a (failing or lazy) match polynomial of a high degree,
+    and a match inside the C engine cannot be interrupted"""
+    k = node[0]
+    if k == "rep":
+        inner = limit_unbounded(node[1], budget)
+        q = node[2]
+        if q in ("*", "+") or (isinstance(q, list) and q[0] == "n,"):
+            if budget[0] > 0:
+                budget[0] -= 1
+            else:
+                q = {"*": ["n,m", 0, 3], "+": ["n,m", 1, 3]}.get(q) if isinstance(q, str) else ["n", min(q[1], 4)]
+        return ["rep", inner, q, node[3]]
+    if k == "grp":
+        return ["grp", node[1], limit_unbounded(node[2], budget)]
+    if k in ("alt", "seq"):
+        return [k, [limit_unbounded(n, budget) for n in node[1]]]
+    return node
+
+
 @st.composite
 def pattern_strategy(draw, max_depth=4):
     depth = draw(st.integers(0, max_depth))
-    body = draw(node_strategy(depth))
+    body = limit_unbounded(draw(node_strategy(depth)), [3])
     return {"body": body, "bol": draw(st.booleans()), "eol": draw(st.booleans())}
 
 
